@@ -20,7 +20,12 @@ RULE = ("kinds: plain (random rows, arity 1-3, constructed with no mappings; obs
         "or as ExperimentSpace.from_screen; 1-3 consecutive save_h5/load_h5 cycles through real h5py files. Names: '', "
         "non-ASCII incl. 3- and 4-byte UTF-8, unequal lengths, inner/trailing blanks; control name '', ASCII, non-ASCII; doses incl. "
         "-0.0, subnormal, inf; observations as raw bit patterns incl. -0.0, subnormals, +-inf, quiet/signalling NaN payloads, "
-        "random 64-bit patterns. Non-trivial: at least 2 rows; distinct by canonical description.")
+        "random 64-bit patterns. Non-trivial: at least 2 rows; distinct by canonical description."
+        "  kind merged (24 quick / 288 thorough, implementation-only predicate): a constructed screen (a third of them a sub-screen carrying superset mappings) is MUTATED IN PLACE by "
+        "Plate.merge of two plates with equal observed-ness (what the merge smoothers hand to save_h5), then saved and loaded 1-2 times; every observable the property lists must be "
+        "unchanged (plate_mapping is not listed by the property - 'both id mappings' are the treatment and sample mapping - and Plate.merge leaves it stale; that is not judged here).  "
+        "Big screens (6 quick / 72 thorough, kinds plain / reuse, with and without the space): 11-40 sample and plate names, random unicode names up to 40 (thorough 120) characters, "
+        "up to 80 (thorough 400) rows, mappings up to ~150 entries.")
 THEOREMS = {
     "C02_load_save": "EVERY screen returned by the constructor (any rows incl. none, any arity, flags, built or supplied mappings "
                      "incl. strict supersets in any stored order) satisfies load (save s) = Ok s: the whole record (rows, arity, "
@@ -381,6 +386,29 @@ def gen(rng, tier):
             rows, a = _rows(rng, n=rng.choice([2, 3, 4, 6, 8]), ctrl=ctrl)
         yield dict(kind="plain", rows=rows, arity=a, ctrl=ctrl, obs_given=True, mask_given=True, sel=None, shuffle=None,
                    k=rng.choice([1, 2]), space=(i % 3 == 0), layout="F")
+    for i in range(24 * N):  # screens mutated in place by Plate.merge (gap review g1, C02 gap 1), then saved / loaded
+        ctrl = rng.choice(MYCTRLS)
+        rows, a = _rows(rng, n=rng.choice([3, 4, 6, 8, 10, 12]), ctrl=ctrl)
+        sel = None
+        if i % 3 == 0:
+            sel = [rng.random() < 0.7 for _ in rows]
+            if not any(sel):
+                sel[0] = True
+        yield dict(kind="merged", rows=rows, arity=a, ctrl=ctrl, obs_given=True, mask_given=True, sel=sel, shuffle=None, k=rng.choice([1, 2]),
+                   space=False, pick=rng.random())
+    import c01
+    for i in range(6 * N):  # big screens: 11-40 samples / plates, random unicode names up to 40 (thorough 120) characters, up to 200 (400) rows
+        rows, a, ctrl = c01._big_case(rng, tier)
+        if tier == "quick":
+            rows = rows[:80]
+        for r in rows:
+            del r["o"]
+            r["ob"] = rng.choice(OBS_BITS) if rng.random() < 0.7 else rng.getrandbits(64)
+        sel = [rng.random() < 0.5 for _ in rows] if i % 2 else None
+        if sel is not None and not any(sel):
+            sel[0] = True
+        yield dict(kind="reuse" if sel else "plain", rows=rows, arity=a, ctrl=ctrl, obs_given=True, mask_given=True, sel=sel, shuffle=None,
+                   k=rng.choice([1, 2]), space=(i % 3 == 2))
     for i in range(16 * N):  # screens without rows (constructible): fresh (empty) mappings / supplied non-empty mappings
         ctrl = rng.choice(MYCTRLS)
         rows, a = _rows(rng, n=[0, 2, 0, 3][i % 4], ctrl=ctrl)
@@ -448,9 +476,48 @@ def _cmp_pair(m, i):
     return "shapes differ"
 
 
+def _run_merged(desc):
+    """a Screen MUTATED IN PLACE by Plate.merge (what the merge smoothers hand to the hold-out and to save_h5), then k save / load
+    cycles; implementation-only predicate on the observables the property lists (plate_mapping is not among them: 'both id
+    mappings' are the treatment and the sample mapping - Plate.merge leaves plate_mapping stale, which is outside this property)"""
+    from batchie.data import Screen
+    os.makedirs(common.WORK, exist_ok=True)
+    tmp = tempfile.mkdtemp(prefix="c02m_", dir=common.WORK)
+    try:
+        s0, _, _ = _subject(desc)
+        feats = ["merged", "arity%d" % desc["arity"], "cycles%d" % desc["k"]]
+        plates = s0.plates
+        pairs = [(i, j) for i in range(len(plates)) for j in range(len(plates)) if i != j and plates[i].is_observed == plates[j].is_observed]
+        if not pairs:
+            return dict(wire=None, impl=None, pred=None, features=feats + ["trivial"])
+        i, j = pairs[int(desc["pick"] * len(pairs)) % len(pairs)]
+        plates[i].merge(plates[j])
+        listed = lambda snap: {k: v for k, v in snap.items() if not k.startswith("plate_mapping")}      # noqa
+        before = listed(_snap_screen(s0))
+        cur, pred = s0, None
+        for c in range(desc["k"]):
+            p = os.path.join(tmp, "m_%d.h5" % c)
+            try:
+                cur.save_h5(p)
+                cur = Screen.load_h5(p)
+            except Exception as e:  # noqa
+                pred = "merged_save_load_raises: cycle %d: %s: %s" % (c + 1, type(e).__name__, str(e)[:200])
+                break
+            fd = _first_diff(before, listed(_snap_screen(cur)))
+            if fd is not None:
+                pred = "field_changed:%s: a screen after Plate.merge, after cycle %d: before %s after %s" % (
+                    fd, c + 1, common.short(before.get(fd), 160), common.short(listed(_snap_screen(cur)).get(fd), 160))
+                break
+        return dict(wire=None, impl=None, pred=pred, features=feats + (["strict_superset"] if desc.get("sel") is not None else []))
+    finally:
+        shutil.rmtree(tmp, ignore_errors=True)
+
+
 def run(desc):
     from batchie.data import ExperimentSpace, Screen
 
+    if desc["kind"] == "merged":
+        return _run_merged(desc)
     os.makedirs(common.WORK, exist_ok=True)
     tmp = tempfile.mkdtemp(prefix="c02_", dir=common.WORK)
     try:
